@@ -30,6 +30,10 @@ pub struct Puppets {
     pub node: NodeHandle,
     pub timeout_ms: u64,
     inbox: Inbox,
+    /// Frames R's mempool sent to the puppets' mempool ports.
+    pub mp_inbox: Arc<Mutex<VecDeque<(usize, Bytes)>>>,
+    mp_sinks: HashMap<(usize, u8), SplitSink<Framed<TcpStream, LengthDelimitedCodec>, Bytes>>,
+    pub full_node: bool,
     /// Puppets that do not acknowledge / answer (listener keeps reading).
     pub mute: Arc<Mutex<HashSet<usize>>>,
     sinks: HashMap<usize, SplitSink<Framed<TcpStream, LengthDelimitedCodec>, Bytes>>,
@@ -52,11 +56,20 @@ pub fn puppets_of(topo: &Topo, r: usize) -> Vec<usize> {
 
 impl Puppets {
     pub async fn start(n: usize, stakes: Vec<u32>, r: usize, seed: u64, timeout_ms: u64, sync_retry_ms: u64) -> Self {
+        Self::start_mode(n, stakes, r, seed, timeout_ms, sync_retry_ms, false).await
+    }
+
+    /// `full_node`: R is a real `Node::new` (mempool + consensus on one store); the puppets then also
+    /// listen on their mempool ports, acknowledging every frame like a real receiver.
+    pub async fn start_mode(n: usize, stakes: Vec<u32>, r: usize, seed: u64, timeout_ms: u64, sync_retry_ms: u64, full_node: bool) -> Self {
         let mut cfg = ClusterCfg::new(n, seed);
         cfg.stakes = stakes;
         cfg.timeout_ms = timeout_ms;
         cfg.sync_retry_ms = sync_retry_ms;
         cfg.not_started = (0..n).filter(|i| *i != r).collect();
+        cfg.full_node = full_node;
+        cfg.batch_size = 200;
+        cfg.max_batch_delay = 20;
         let topo = Arc::new(Topo::new(n, cfg.stakes.clone(), seed));
         let ctl = net::install(seed);
         {
@@ -97,6 +110,31 @@ impl Puppets {
                 }
             });
         }
+        let mp_inbox: Arc<Mutex<VecDeque<(usize, Bytes)>>> = Arc::new(Mutex::new(VecDeque::new()));
+        if full_node {
+            for j in puppets_of(&topo, r) {
+                let listener = TcpListener::bind(std::net::SocketAddr::from(([0, 0, 0, 0], port(j, crate::world::SVC_MEMPOOL))))
+                    .await
+                    .expect("puppet mempool bind");
+                let mp_inbox = mp_inbox.clone();
+                tokio::spawn(async move {
+                    loop {
+                        let (socket, _) = match listener.accept().await {
+                            Ok(x) => x,
+                            Err(_) => return,
+                        };
+                        let mp_inbox = mp_inbox.clone();
+                        tokio::spawn(async move {
+                            let mut framed = Framed::new(socket, LengthDelimitedCodec::new());
+                            while let Some(Ok(frame)) = framed.next().await {
+                                mp_inbox.lock().unwrap().push_back((j, frame.freeze()));
+                                let _ = framed.send(Bytes::from("Ack")).await;
+                            }
+                        });
+                    }
+                });
+            }
+        }
         let node = Cluster::start_node(&topo, &cfg, &scratch, r).await;
         let mut blocks = HashMap::new();
         blocks.insert(Digest::default(), Block::genesis());
@@ -108,6 +146,9 @@ impl Puppets {
             node,
             timeout_ms,
             inbox,
+            mp_inbox,
+            mp_sinks: HashMap::new(),
+            full_node,
             mute,
             sinks: HashMap::new(),
             r_blocks: Vec::new(),
@@ -157,6 +198,69 @@ impl Puppets {
                 }
             }
         }
+    }
+
+    /// Send one frame from actor `from` to service `svc` of R (persistent connection per (from, svc)).
+    pub async fn send_to(&mut self, from: usize, svc: u8, data: Bytes) -> bool {
+        if svc == SVC_CONSENSUS && from < self.topo.n {
+            self.send_raw(from, data).await;
+            return true;
+        }
+        for _attempt in 0..2 {
+            if !self.mp_sinks.contains_key(&(from, svc)) {
+                match TcpStream::connect(addr(from, self.r, svc)).await {
+                    Ok(s) => {
+                        let (sink, mut stream) = Framed::new(s, LengthDelimitedCodec::builder().max_frame_length(64 * 1024 * 1024).new_codec()).split();
+                        tokio::spawn(async move { while let Some(Ok(_)) = stream.next().await {} });
+                        self.mp_sinks.insert((from, svc), sink);
+                    }
+                    Err(_) => return false,
+                }
+            }
+            let sink = self.mp_sinks.get_mut(&(from, svc)).unwrap();
+            match sink.send(data.clone()).await {
+                Ok(()) => {
+                    self.sent += 1;
+                    return true;
+                }
+                Err(_) => {
+                    self.mp_sinks.remove(&(from, svc));
+                }
+            }
+        }
+        false
+    }
+
+    /// Write raw bytes (no framing by the harness) on a fresh connection to service `svc` of R.
+    pub async fn send_unframed(&mut self, from: usize, svc: u8, bytes: Vec<u8>) -> bool {
+        use tokio::io::AsyncWriteExt as _;
+        match TcpStream::connect(addr(from, self.r, svc)).await {
+            Ok(mut s) => {
+                s.set_raw(true);
+                let ok = s.write_all(&bytes).await.is_ok();
+                // keep the connection open for a moment so that the bytes are read
+                tokio::spawn(async move {
+                    sleep(Duration::from_millis(50)).await;
+                    drop(s);
+                });
+                ok
+            }
+            Err(_) => false,
+        }
+    }
+
+    /// Make a batch available in R's store: directly (consensus-only R) or by sending it to R's
+    /// mempool port as a peer would (full node). Returns the digest R will know it under.
+    pub async fn provide_batch(&mut self, txs: Vec<Vec<u8>>) -> Digest {
+        let bytes = bincode::serialize(&mempool::verif::MempoolMessage::Batch(txs)).expect("serialize batch");
+        let d = crate::model::sha512_256(&bytes);
+        if self.full_node {
+            let from = self.puppets()[0];
+            self.send_to(from, crate::world::SVC_MEMPOOL, Bytes::from(bytes)).await;
+        } else if let Some(s) = self.node.store.as_mut() {
+            s.write(d.to_vec(), bytes).await;
+        }
+        d
     }
 
     pub async fn send(&mut self, from: usize, msg: &ConsensusMessage) {
